@@ -200,6 +200,13 @@ pub fn check_case(_ctx: &Ctx, case: &Case, t: &mut Tally) {
     if spec.lines.iter().any(|l| matches!(l, Line::Out { v, .. } if v.iter().any(|x| *x < 0.0))) {
         t.count("cases_with_negative_outputs");
     }
+    {
+        // systems declared only through SALIDA + AUX lines
+        let with_lines: std::collections::BTreeSet<i32> = spec.lines.iter().filter_map(|l| match l { Line::Used { id, .. } | Line::Prod { id, .. } => Some(*id), _ => None }).collect();
+        if decl.keys().any(|id| !with_lines.contains(id)) {
+            t.count("cases_with_aux_on_a_system_without_consumption_lines");
+        }
+    }
     if exp.as_ref().map(|e| !e.aux_zero_out_steps.is_empty()).unwrap_or(false) {
         t.count("cases_with_zero_output_steps");
     }
@@ -244,6 +251,7 @@ pub fn run(ctx: &Ctx) -> Report {
         ("cases_with_zero_output_steps".to_string(), tally.get("cases_with_zero_output_steps"), 100),
         ("cases_with_aux_as_only_electricity".to_string(), tally.get("cases_with_aux_as_only_electricity"), 100),
         ("rejected_as_expected.aux_without_output".to_string(), tally.get("rejected_as_expected.aux_without_output"), 10),
+        ("cases_with_aux_on_a_system_without_consumption_lines".to_string(), tally.get("cases_with_aux_on_a_system_without_consumption_lines"), 100),
     ];
     Report {
         tally,
